@@ -49,9 +49,9 @@ def prepare(p, targets, existing, now):
         p.touch(rel, now - 500 + i)
 
 
-def check_previews_and_run(name, targets, existing, pre_jobs, problems):
+def check_previews_and_run(name, targets, existing, pre_jobs, problems, config=None):
     """C05 + C02 on one scenario. pre_jobs: {target: slurm state} already tracked before the commands."""
-    p = Project(targets)
+    p = Project(targets, config=config)
     try:
         now = time.time()
         prepare(p, targets, existing, now)
@@ -171,6 +171,13 @@ def run_c05(seed, focus):
         for existing, pre in scenarios:
             tried += 1
             check_previews_and_run(f"{wname}/existing={existing}/jobs={pre}", targets, existing, pre, problems)
+            if problems:
+                return result(problems, tried, "status/dry-run/run agree, previews change nothing, re-run is a no-op")
+        # the same with spec hashing switched on: previews must not record (or erase) a hash either
+        for existing, pre in scenarios[:3] + scenarios[5:6]:
+            tried += 1
+            check_previews_and_run(f"{wname}/spec hashes on/existing={existing}/jobs={pre}", targets, existing, pre, problems,
+                                   config={"use_spec_hashes": True})
             if problems:
                 return result(problems, tried, "status/dry-run/run agree, previews change nothing, re-run is a no-op")
     return result(problems, tried, "status/dry-run/run agree")
@@ -522,22 +529,30 @@ def run_c15(seed, focus):
     for wname, targets in WORKFLOWS.items():
         deps = deps_of(targets)
         dependents = {t["name"]: [u for u, ds in deps.items() if t["name"] in ds] for t in targets}
-        for args in ([], ["--all"], ["a"], ["--all", "a"], ["b", "c"], ["--all", "*"], ["nomatch"]):
+        for args in ([], ["--all"], ["a"], ["--all", "a"], ["b", "c"], ["--all", "*"], ["nomatch"], ["#hashes"], ["#hashes", "--all"]):
+            hashing = "#hashes" in args
+            args = [a for a in args if a != "#hashes"]
             for answer in ("y\n", "n\n"):
                 pats = [a for a in args if not a.startswith("-")]
                 prompt = not pats
                 if not prompt and answer == "n\n":
                     continue
                 tried += 1
-                p = Project(targets)
+                p = Project(targets, config={"use_spec_hashes": True} if hashing else None)
                 try:
                     now = time.time()
                     prepare(p, targets, [o for t in targets for o in t["outputs"]], now)
                     p.touch("unrelated.txt")
                     p.touch(".gwf/logs/a.stdout")
+                    if hashing:
+                        p.gwf("touch")                    # records the current spec hash of every target
                     before = p.snapshot()
                     code, out = p.gwf("clean", *args, input=answer)
                     after = p.snapshot()
+                    if hashing and prompt and answer == "n\n" and semantic(after) != semantic(before):
+                        problems.append(f"{wname} (spec hashes on) clean {args} declined, yet the project changed: "
+                                        f"hashes {semantic(before)['hashes'].keys() ^ semantic(after)['hashes'].keys()} / "
+                                        f"files {sorted(set(before) ^ set(after))}")
                     removed = sorted(set(before) - set(after))
                     import fnmatch
                     sel = [t for t in targets if (not pats or any(fnmatch.fnmatch(t["name"], q) for q in pats))
@@ -577,9 +592,31 @@ def run_c16(seed, focus):
                     p.touch("unrelated.txt", now - 700)
                     before = p.snapshot()
                     m0 = os.stat(p.path("unrelated.txt")).st_mtime
-                    code, out = p.gwf("touch", *args)
+                    # the order of the touches is observed (they still happen): modification times only show the order
+                    # when the clock ticks between two touches, the sequence of calls always does
+                    import pathlib
+                    real_touch, order = pathlib.Path.touch, []
+
+                    def spy(self, *a, **k):
+                        order.append(os.path.relpath(str(self), p.dir))
+                        return real_touch(self, *a, **k)
+
+                    pathlib.Path.touch = spy
+                    try:
+                        code, out = p.gwf("touch", *args)
+                    finally:
+                        pathlib.Path.touch = real_touch
                     if code != 0:
                         problems.append(f"{wname}: gwf touch {args} failed: {out[-200:]}")
+                    byname = {t["name"]: t for t in targets}
+                    for t in targets:
+                        for d in deps[t["name"]]:
+                            last_dep = max([i for i, f in enumerate(order) if f in byname[d]["outputs"]], default=None)
+                            first_me = min([i for i, f in enumerate(order) if f in t["outputs"]], default=None)
+                            if last_dep is not None and first_me is not None and last_dep > first_me:
+                                problems.append(f"{wname}: gwf touch {args} touched in the order {order}: an output of {d} is "
+                                                f"touched again after an output of its dependent {t['name']} (which then looks "
+                                                f"older than its input)")
                     cone = set()
 
                     def reach(n):
@@ -616,7 +653,9 @@ def run_c17(seed, focus):
     problems, tried = [], 0
     for wname in ("chain", "diamond"):
         targets = WORKFLOWS[wname]
-        for args in (["-f"], ["a"], ["b", "c"], ["nomatch"], ["a", "c"]):
+        for args, answer in ((["-f"], None), (["a"], None), (["b", "c"], None), (["nomatch"], None), (["a", "c"], None),
+                             (["-f", "nomatch"], None), (["nomatch"], "y\n"), (["-f", "A*", "nomatch*"], None),
+                             ([], "y\n"), ([], "n\n")):
             for untracked in ((), ("a",), ("b",)):
                 tried += 1
                 p = Project(targets)
@@ -627,11 +666,13 @@ def run_c17(seed, focus):
                     for u in untracked:       # a target that was never submitted
                         tr.pop(u, None)
                     json.dump(tr, open(p.path(".gwf/slurm-backend-tracked.json"), "w"))
-                    code, out = p.gwf("cancel", *args)
+                    code, out = p.gwf("cancel", *args, input=answer)
                     calls = [c[-1] for c in p.slurm()["calls"] if c[0] == "scancel"]
                     import fnmatch
                     pats = [a for a in args if not a.startswith("-")]
                     sel = [t["name"] for t in targets if not pats or any(fnmatch.fnmatch(t["name"], q) for q in pats)]
+                    if not pats and "-f" not in args and answer != "y\n":
+                        sel = []                     # all targets only when the prompt is confirmed (or forced)
                     want = sorted(tr[n] for n in sel if n in tr)
                     if sorted(calls) != want:
                         problems.append(f"{wname}: gwf cancel {' '.join(args)} (untracked {untracked}) cancelled jobs {sorted(calls)}, "
